@@ -22,7 +22,16 @@ point"; theorems C13_*_anywhere over model/C13Any.v):
     elsewhere; oracle = the property on the raw attribute vectors, evaluated in Coq (C13Tie.acheck);
   * attributes are compared at TWO times: when the call exits (exception still referenced) and
     after the exception is released + gc.collect().
-A run whose fault is in scope and whose final attributes differ is the replay."""
+A run whose fault is in scope and whose final attributes differ is the replay.
+Round 8 -- WHICH terminal (theorems C13_multi_* over model/C13Multi.v; harness/tx/tx_attrfd.py -> gen/AttrFd.v
+extracts the descriptor argument of every tcgetattr / tcsetattr call site, fail-closed):
+  * the driver process gets a LAYOUT of terminals generated as data: 1..3 ptys with their own initial
+    attributes; stdin = the slave of any of them, a pipe or /dev/null; stdout and the library's active
+    terminal `_tty_fd` = the slave of any of them; ptys nothing refers to are bystanders;
+  * the attributes of EVERY pty are read before / when the call exits / after release + gc, for the fault-free
+    run, the k-th tracked call raising AFTER its effect (KeyboardInterrupt / Exception / real SIGINT: all in
+    scope wherever they stand) and asynchronous KeyboardInterrupts; oracle = the property itself, for every
+    terminal, evaluated in Coq (model/C13MultiTie.mcheck); no skeleton is involved in that judgement."""
 from __future__ import annotations
 
 import itertools
@@ -33,7 +42,7 @@ from pathlib import Path
 import core
 
 LEVEL = "proof"
-EXTRA_TARGETS = ["model/C13Tie.vo", "model/C13AsyncTie.vo"]
+EXTRA_TARGETS = ["model/C13Tie.vo", "model/C13AsyncTie.vo", "model/C13MultiTie.vo"]
 
 FN_IDX = {"read_tty": 0, "query_terminal": 1, "draw": 2}
 NVARS = {"read_tty": 1, "query_terminal": 1, "draw": 6}
@@ -86,6 +95,54 @@ MODES = [
 ]
 
 KINDS_ALL = [("KI", False), ("KI", True), ("Exc", False), ("Exc", True), ("SIGINT", True)]
+KINDS_AFTER = [("KI", True), ("Exc", True), ("SIGINT", True)]  # in scope wherever the call stands
+
+# ---- round 8: layouts of terminals over the standard descriptors and the library's active terminal (data)
+LAYOUT_MODES_QUICK = [("draw", "still"), ("draw", "anim3"), ("draw", "still/echo_input"),
+                      ("read_tty", "t>0/more-stops"), ("read_tty", "none/echo"), ("query_terminal", "reply")]
+LAYOUT_ASYNC_MODES = [("draw", "still"), ("read_tty", "t>0/more-stops"), ("query_terminal", "reply")]
+STDIN_KINDS = ("pipe", "null")
+
+
+def layout_name(lay):
+    return (f"{len(lay['ptys'])}pty:stdin={lay['stdin']},stdout={lay['stdout']},tty={lay['tty']};attrs="
+            + "|".join(lay["names"]))
+
+
+def mk_layout(specs, stdin, stdout, tty):
+    return {"ptys": [a for _, a in specs], "names": [n for n, _ in specs], "stdin": stdin, "stdout": stdout, "tty": tty}
+
+
+def layout_corpus():
+    a = ATTRS_QUICK
+    return [
+        mk_layout([a[0]], 0, 0, 0),                 # (a) everything on one pty
+        mk_layout([a[0], a[0]], 1, 0, 0),           # (b) stdin on a second pty, same attributes
+        mk_layout([a[0], a[3]], 1, 0, 0),           # (d) stdin on a second pty, DIFFERENT attributes
+        mk_layout([a[0], a[1]], "pipe", 0, 0),      # (c) stdin not a tty; pty 1 is a bystander
+        mk_layout([a[2], a[0]], "null", 0, 0),
+        mk_layout([a[0], a[2]], 0, 0, 1),           # the active terminal is another one
+        mk_layout([a[3], a[0]], 0, 1, 0),           # stdout on the second pty
+        mk_layout([a[0], a[3], a[1]], 1, 0, 2),     # three different terminals
+    ]
+
+
+def layouts_for(quick, rng):
+    out = layout_corpus()
+    if quick:
+        for _ in range(2):
+            n = rng.choice((2, 3))
+            specs = [rng.choice(ATTRS_ALL) for _ in range(n)]
+            out.append(mk_layout(specs, rng.choice(list(range(n)) + list(STDIN_KINDS)), rng.randrange(n), rng.randrange(n)))
+    else:
+        i = 0
+        for stdin in (0, 1, 2) + STDIN_KINDS:
+            for stdout in range(3):
+                for tty in range(3):
+                    specs = [ATTRS_ALL[(5 * i + 7 * j) % len(ATTRS_ALL)] for j in range(3)]
+                    i += 1
+                    out.append(mk_layout(specs, stdin, stdout, tty))
+    return out
 
 
 def ev_term(e):
@@ -112,6 +169,11 @@ def describe(case, res=None):
     f = case.get("fault")
     a = case.get("async")
     s = f"{case['fn']}[{case['mode_name']}] attrs={case['attrs_name']} "
+    if case.get("layout"):
+        lay = case["layout"]
+        s += (f"LAYOUT {len(lay['ptys'])} terminal(s) [{', '.join(lay.get('names', []))}]: stdin -> "
+              + (f"pty {lay['stdin']}" if isinstance(lay["stdin"], int) else f"{lay['stdin']} (not a tty)")
+              + f", stdout -> pty {lay['stdout']}, active terminal -> pty {lay['tty']}; ")
     if a:
         s += f"asynchronous {'KeyboardInterrupt' if a.get('kind', 'KI') == 'KI' else 'Exception'} at signal point #{a['k']}"
         if res is not None and res.get("where"):
@@ -124,7 +186,14 @@ def describe(case, res=None):
                  "render", "sleep", "handle_interrupt", "finalize"]
         s += " | calls: " + " ".join(names[e[0]] + ("!" if e[2] else "") for e in res["events"])
         s += f" | ended: {['returned', 'KeyboardInterrupt', 'Exception'][res['out']]}"
-        if not res["restored"]:
+        if not res["restored"] and res.get("terms"):
+            for ti, t in enumerate(res["terms"]):
+                for key, when in (("held", "when the call exits"), ("after", "after release + gc")):
+                    diff = [i for i, (x, y) in enumerate(zip(t["before"], t[key])) if x != y]
+                    if diff:
+                        s += (f" | TERMINAL pty {ti}: ATTRIBUTES DIFFER {when} in fields {diff} "
+                              f"(lflag {t['before'][3]:#x} -> {t[key][3]:#x})")
+        elif not res["restored"]:
             for key, when in (("held", "WHEN THE CALL EXITS (exception still referenced)"),
                               ("after", "AFTER the exception was released and gc.collect()")):
                 diff = [i for i, (x, y) in enumerate(zip(res["before"], res.get(key) or res["before"])) if x != y]
@@ -153,6 +222,10 @@ def acase_term(r):
     return "mkacase " + " ".join(core.coq_list(attr_vec(r[k]), core.z) for k in ("before", "held", "after"))
 
 
+def mcase_term(r):
+    return core.coq_list(r["terms"], lambda t: "(" + acase_term(t) + ")")
+
+
 # scenarios whose signal points are ALL enumerated in the quick tier (the others: a spread)
 ASYNC_FULL_QUICK = {("draw", "still"), ("read_tty", "t>0/more-stops"), ("query_terminal", "reply"), ("read_tty", "t>0/min2")}
 ASYNC_STRIDE_QUICK = 7
@@ -178,6 +251,18 @@ def run(ctx):
         base = []
         for (an, a), (fn, mn, mode, obs) in itertools.product(attrs, MODES):
             base.append({"fn": fn, "attrs": a, "attrs_name": an, "mode": mode, "mode_name": mn, "obs": obs, "fault": None})
+        # ---- round 8: the same operations under layouts of several terminals
+        lays = layouts_for(quick, ctx.rng)
+        by_name = {(fn, mn): (mode, obs) for fn, mn, mode, obs in MODES}
+        lay_modes = LAYOUT_MODES_QUICK if quick else [(fn, mn) for fn, mn, _, _ in MODES]
+        n_plain = len(base)
+        for lay in lays:
+            prim_names = lay["names"]
+            for fn, mn in lay_modes:
+                mode, obs = by_name[(fn, mn)]
+                prim = lay["stdout"] if fn == "draw" else lay["tty"]
+                base.append({"fn": fn, "attrs": lay["ptys"][prim], "attrs_name": prim_names[prim], "mode": mode,
+                             "mode_name": mn, "obs": obs, "fault": None, "layout": lay, "layout_name": layout_name(lay)})
         base_res = core.run_impl_parallel("impl_c13.py", base)
         _tick('base')
         cases = []
@@ -186,6 +271,17 @@ def run(ctx):
                 errors.append(f"fault-free run aborted: {describe(c)}: {r['abort']}")
                 continue
             cases.append(c)
+            if c.get("layout"):
+                n = r["ncalls"]
+                if quick:
+                    ks = sorted({0, n - 1, ctx.rng.randrange(n), ctx.rng.randrange(n)}) if n else []
+                    for j, k in enumerate(ks):
+                        kind, after = KINDS_AFTER[(bi + j) % len(KINDS_AFTER)]
+                        cases.append(dict(c, fault={"k": k, "kind": kind, "after": after}))
+                else:
+                    for k in range(n):
+                        cases.append(dict(c, fault={"k": k, "kind": "KI", "after": True}))
+                continue
             # quick: the first attribute set gets every kind of fault, the others KeyboardInterrupt after the effect
             full = (not quick) or c["attrs_name"] == attrs[0][0]
             kinds = KINDS_ALL if full else [("KI", True)]
@@ -194,7 +290,12 @@ def run(ctx):
                     cases.append(dict(c, fault={"k": k, "kind": kind, "after": after}))
         # ---- asynchronous faults at the signal points of the package code (clean-up included)
         a_attrs = attrs[:1] if quick else attrs[:2]
-        a_base = [dict(c, **{"async": {"k": None}}) for c in base if c["attrs_name"] in {n for n, _ in a_attrs}]
+        a_base = [dict(c, **{"async": {"k": None}}) for c in base
+                  if not c.get("layout") and c["attrs_name"] in {n for n, _ in a_attrs}]
+        corpus_names = [layout_name(lay) for lay in layout_corpus()]
+        a_lay = {corpus_names[i] for i in (0, 2, 3, 7)}
+        a_base += [dict(c, **{"async": {"k": None}}) for c in base
+                   if c.get("layout") and c["layout_name"] in a_lay and (c["fn"], c["mode_name"]) in LAYOUT_ASYNC_MODES]
         a_res = core.run_impl_parallel("impl_c13.py", a_base)
         _tick('async count')
         for c, r in zip(a_base, a_res):
@@ -204,12 +305,15 @@ def run(ctx):
             n = r["npoints"]
             hist["signal_points_per_scenario"][min(n // 50 * 50, 500)] = \
                 hist["signal_points_per_scenario"].get(min(n // 50 * 50, 500), 0) + 1
-            if not quick or (c["fn"], c["mode_name"]) in ASYNC_FULL_QUICK:
+            if c.get("layout"):
+                step = max(1, n // 4) if quick else 5
+                ks = range(1 + ctx.rng.randrange(step), n + 1, step)
+            elif not quick or (c["fn"], c["mode_name"]) in ASYNC_FULL_QUICK:
                 ks = range(1, n + 1)
             else:
                 ks = range(1 + ctx.rng.randrange(ASYNC_STRIDE_QUICK), n + 1, ASYNC_STRIDE_QUICK)
             for k in ks:
-                for kind in (("KI",) if quick else ("KI", "Exc")):
+                for kind in (("KI",) if quick or c.get("layout") else ("KI", "Exc")):
                     cases.append(dict(c, **{"async": {"k": k, "kind": kind}}))
     # round-robin over the worker processes (the asynchronous cases, slower, are at the end of the list)
     order = [i for r in range(core.NCPU) for i in range(r, len(cases), core.NCPU)]
@@ -222,9 +326,18 @@ def run(ctx):
     # ---- judge inside Coq (distinct observations only)
     keys, key_idx, owner = [], {}, []
     a_terms, a_owner = [], {}
+    m_terms, m_owner = [], {}
     for ci, (c, r) in enumerate(zip(cases, results)):
         if r.get("abort"):
             errors.append(f"run aborted: {describe(c)}: {r['abort']}")
+            owner.append(None)
+            continue
+        if c.get("layout"):
+            if not r.get("terms") or len(r["terms"]) != len(c["layout"]["ptys"]):
+                errors.append(f"the driver did not report every terminal: {describe(c)}")
+            else:
+                m_owner[ci] = len(m_terms)
+                m_terms.append(mcase_term(r))
             owner.append(None)
             continue
         if c.get("async"):
@@ -243,6 +356,19 @@ def run(ctx):
     # never judge against a stale comparison module (its build fails when the translator refuses the source)
     tie, gen = core.COQ / "model" / "C13Tie.vo", core.COQ / "gen" / "Skeletons.v"
     coq_ok = tie.exists() and gen.exists() and tie.stat().st_mtime >= gen.stat().st_mtime
+    # the three evaluations run side by side
+    from concurrent.futures import ThreadPoolExecutor
+    pool = ThreadPoolExecutor(2)
+    a_codes, a_coq_ok = {}, (core.COQ / "model" / "C13AsyncTie.vo").exists()
+    m_codes, m_coq_ok = {}, (core.COQ / "model" / "C13MultiTie.vo").exists()
+    a_header = ("From Coq Require Import List Bool Arith ZArith.\nImport ListNotations.\n"
+                "From TI Require Import model.C13AsyncTie.\nOpen Scope nat_scope.\n")
+    m_header = ("From Coq Require Import List Bool Arith ZArith.\nImport ListNotations.\n"
+                "From TI Require Import model.C13AsyncTie model.C13MultiTie.\nOpen Scope nat_scope.\n")
+    a_fut = pool.submit(core.coq_shards, "c13a", a_header, a_terms, "acase", "abad cases", shard=200) \
+        if a_terms and a_coq_ok else None
+    m_fut = pool.submit(core.coq_shards, "c13m", m_header, m_terms, "mcase", "mbad cases", shard=100) \
+        if m_terms and m_coq_ok else None
     if keys and coq_ok:
         bad, errs = core.coq_shards("c13", header, [case_term(k) for k in keys], "tcase", "bad cases", shard=150)
         if errs:
@@ -250,21 +376,53 @@ def run(ctx):
             errors += [e[-700:] for e in errs[:3]]
         codes = {i: code for i, code in bad}
     _tick(f'coq judge {len(keys)} keys')
-    a_codes, a_coq_ok = {}, (core.COQ / "model" / "C13AsyncTie.vo").exists()
-    if a_terms and a_coq_ok:
-        a_header = ("From Coq Require Import List Bool Arith ZArith.\nImport ListNotations.\n"
-                    "From TI Require Import model.C13AsyncTie.\nOpen Scope nat_scope.\n")
-        bad, errs = core.coq_shards("c13a", a_header, a_terms, "acase", "abad cases", shard=200)
+    if a_fut is not None:
+        bad, errs = a_fut.result()
         if errs:
             a_coq_ok = False
             errors += [e[-700:] for e in errs[:3]]
         a_codes = {i: code for i, code in bad}
     _tick(f'coq async {len(a_terms)}')
+    if m_fut is not None:
+        bad, errs = m_fut.result()
+        if errs:
+            m_coq_ok = False
+            errors += [e[-700:] for e in errs[:3]]
+        m_codes = {i: code for i, code in bad}
+    _tick(f'coq multi {len(m_terms)}')
+    pool.shutdown()
 
     distinct = set()
     in_scope_fault_runs = 0
     async_runs = async_fired = 0
+    layout_runs = 0
+    hist["layout"] = {}
+    hist["layout_fault"] = {}
     for ci, (c, r) in enumerate(zip(cases, results)):
+        if ci in m_owner:
+            lay, f, a = c["layout"], c.get("fault"), c.get("async")
+            layout_runs += 1
+            shape = (f"{len(lay['ptys'])}pty stdin={'same' if lay['stdin'] == lay['stdout'] else lay['stdin'] if isinstance(lay['stdin'], str) else 'other-pty'}"
+                     f" tty={'stdout' if lay['tty'] == lay['stdout'] else 'other-pty'}")
+            hist["layout"][shape] = hist["layout"].get(shape, 0) + 1
+            fk = "async" if a else "none" if not f else f"{f['kind']}-after"
+            hist["layout_fault"][fk] = hist["layout_fault"].get(fk, 0) + 1
+            hist["fn"][c["fn"] + " (layout)"] = hist["fn"].get(c["fn"] + " (layout)", 0) + 1
+            code = m_codes.get(m_owner[ci], 0) if m_coq_ok else (0 if r["restored"] else 2)
+            hist["judgement"]["layout:" + str(code)] = hist["judgement"].get("layout:" + str(code), 0) + 1
+            if (code == 0) != bool(r["restored"]):
+                errors.append(f"the Coq comparison of the attribute vectors disagrees with the driver's: {describe(c, r)}")
+            if code == 0 and len(lay["ptys"]) > 1 and (not a or r.get("fired")):
+                distinct.add(("layout", c["fn"], c["mode_name"], c.get("layout_name"), json.dumps(f or a, sort_keys=True)))
+            if code >= 2:
+                failures.append({
+                    "signature": core.sig({"fn": c["fn"], "mode": c["mode_name"], "fault": f, "async": a,
+                                           "layout": c.get("layout_name")}),
+                    "what": "terminal attributes not restored on every terminal: " + describe(c, r),
+                    "replay": {"case": c, "observed": {k: r.get(k) for k in ("events", "out", "exc", "terms", "restored",
+                                                                              "where", "npoints")}, "code": code},
+                })
+            continue
         if ci in a_owner:
             a = c["async"]
             async_runs += 1
@@ -319,12 +477,13 @@ def run(ctx):
     def fkey(f):
         c = f["replay"]["case"]
         flt = c.get("fault") or c.get("async")
-        return (flt is not None, c.get("async") is not None, (flt or {}).get("k", 0))
+        return (flt is not None, c.get("async") is not None, (flt or {}).get("k", 0), len((c.get("layout") or {}).get("ptys", [])))
     failures.sort(key=fkey)
     total_failing = len(failures)
     seen, kept = set(), []
     for f in failures:
-        key = (f["replay"]["case"]["fn"], f["replay"]["case"]["mode_name"], f["replay"]["case"].get("async") is not None)
+        key = (f["replay"]["case"]["fn"], f["replay"]["case"]["mode_name"], f["replay"]["case"].get("async") is not None,
+               f["replay"]["case"].get("layout") is not None)
         if key not in seen:
             seen.add(key)
             kept.append(f)
@@ -361,7 +520,17 @@ def run(ctx):
                    if quick else "every scenario, first two attribute sets")
                 + ".  Attributes read before the call, when it exits (exception still referenced) and after release + "
                 "gc.collect().  Non-trivial: distinct observed traces with an in-scope fault that were judged (in Coq) to be "
-                "runs of `anyfault skeleton`, plus distinct (scenario, position) pairs of fired asynchronous faults.",
+                "runs of `anyfault skeleton`, plus distinct (scenario, position) pairs of fired asynchronous faults.  "
+                "Round 8, several terminals: layouts generated as data (1..3 ptys with their own attribute sets; stdin -> "
+                "any pty / a pipe / /dev/null, stdout -> any pty, utils._tty_fd -> any pty; a committed corpus of 8 + "
+                + ("2 random ones" if quick else "all 45 assignments over 3 ptys") + ") x "
+                + (f"{len(LAYOUT_MODES_QUICK)} modes" if quick else "every mode")
+                + ": the fault-free run, the k-th tracked call raising AFTER its effect ("
+                + ("first, last and two random k, kinds rotating KeyboardInterrupt / Exception / SIGINT" if quick
+                   else "all k, KeyboardInterrupt")
+                + ") and asynchronous KeyboardInterrupts at a spread of signal points (4 layouts x 3 modes); the "
+                "attributes of EVERY pty (bystanders included) are compared at the three times, in Coq "
+                "(C13MultiTie.mcheck); non-trivial: distinct passing runs in a layout with at least two terminals.",
         "samples": samples,
         "histogram": hist,
         "mismatches": mismatches,
@@ -380,9 +549,15 @@ def run(ctx):
             "of the previous call and the restoring tcsetattr of a finally block is not one",
             "the restoring tcsetattr of a clean-up block failing before it takes effect (the OS refuses the restore) is "
             "outside the property: no code can put the attributes back then",
+            "several terminals: a descriptor expression (a local assigned once / a module global the function does not "
+            "assign) refers to ONE terminal during the call; tcgetattr / tcsetattr act on the terminal their descriptor "
+            "refers to and on no other (validated on every layout run: bystander ptys are compared too)",
         ] + [f"`{s}` keeps one truth value during a call" for s in assumed],
-        "trusted": ["harness/tx/tx_skel.py (Python ast -> prog, fail-closed)", "the pty driver harness/impl/impl_c13.py "
+        "trusted": ["harness/tx/tx_skel.py (Python ast -> prog, fail-closed)",
+                    "harness/tx/tx_attrfd.py (descriptor argument of the tcgetattr / tcsetattr call sites, fail-closed; the "
+                    "identification of a call site with the Snap / Put op of the skeleton is by snapshot variable)", "the pty driver harness/impl/impl_c13.py "
                     "(patches termios.*, utils.os/select/monotonic, sys.stdout, RenderIterator.__next__, sleep)"],
         "extra": {"in_scope_fault_runs": in_scope_fault_runs, "distinct_traces_judged": len(keys),
-                  "async_runs": async_runs, "async_fired": async_fired, "failing_runs_total": total_failing},
+                  "async_runs": async_runs, "async_fired": async_fired, "failing_runs_total": total_failing,
+                  "layout_runs": layout_runs},
     }
